@@ -1665,7 +1665,7 @@ def make_valid_items_p(rng, n, variants=2, threads=False):
         s, b = gen_valid_p(rng, threads=threads, n_pipes=rng.choice([1, 1, 2, 2, 0]))
         g = engine.scen_hash(s)
         for v in range(variants):
-            r = {"spelling": ["mixed", "id", "alias", "mixed"][v % 4], "shuffle": v % 2 == 1, "descriptive": v % 3 == 2,
+            r = {"spelling": ["mixed", "id", "alias", "mixed"][v % 4], "shuffle": v % 2 == 1, "descriptive": (k + v) % 3 == 2,
                  "seed": rng.randrange(1 << 30)}
             doc = S.render(s, random.Random(r["seed"]), r["spelling"], r["shuffle"], r["descriptive"])
             items.append(engine.Item(s, doc, "valid", render=r, group=g))
@@ -1677,7 +1677,7 @@ def make_mutant_items_p(rng, n, owners, threads=False):
     items = []
     for k in range(n):
         s, name, owner, desc = mutate_p(rng, only=owners, threads=threads)
-        r = {"spelling": "id" if name in M.FORCE_ID_SPELLING else "mixed", "shuffle": k % 2 == 1, "descriptive": False,
+        r = {"spelling": "id" if name in M.FORCE_ID_SPELLING else "mixed", "shuffle": k % 2 == 1, "descriptive": k % 4 == 3,
              "seed": rng.randrange(1 << 30)}
         doc = S.render(s, random.Random(r["seed"]), r["spelling"], r["shuffle"], r["descriptive"])
         items.append(engine.Item(s, doc, "mutant", mutator=name, owner=owner, desc=desc, render=r, group=engine.scen_hash(s)))
